@@ -290,7 +290,7 @@ func c17Arith(c *Case) {
 
 func c17Cases(tier string) int {
 	if tier == "thorough" {
-		return 1 + 300000
+		return 1 + 2000000
 	}
 	return 1 + 40000
 }
